@@ -37,7 +37,9 @@ RULE = ("random histories (families generic / in-call bodies / >50-cancellation 
         "~260 operations over <= 60 (burst: 90) calls with dyadic times, run on a minimal ReactorBase subclass and on real "
         "Select/Poll/EPoll reactor instances; plus exhaustive histories (quick depth 4, thorough depth 5) over 3 calls, "
         "delays {0,1,2}, advances {0,1,2} with in-call bodies.  Distinct = (target kind, history); non-trivial = at least "
-        "one call ran and at least one cancel/reset/delay took effect or a call was scheduled from inside a call.")
+        "one call ran and at least one cancel/reset/delay took effect or a call was scheduled from inside a call.  "
+        "Timed calls raise in a share of the histories (0/10/30 % of the bodies); the raising bodies join the exhaustive "
+        "enumeration in the thorough tier only.")
 ASSUMPTIONS = ["trusted base: the ~60-line reference timer set in vf/engines/timermodel.py",
                "all times are multiples of 1/16 s so the implementation's float arithmetic is exact",
                "real reactor instances are driven with iterate(0) and a per-instance `seconds`; no I/O is registered"]
